@@ -55,6 +55,62 @@ def impl_unmangle(unmangle, m):
         return ("ERR", type(e).__name__)
 
 
+def _chunk(job):
+    """one block of names: unmangle correspondence on the real mangle outputs + the property on the real functions"""
+    import subprocess
+    binary, cls, chunk, kinds, base = job
+    vlib.use_repo_in_process()
+    from hy.reader.mangling import mangle, unmangle
+    dis, fails, counts, cases = [], [], {}, []
+
+    def count(k):
+        counts[k] = counts.get(k, 0) + 1
+    mangled = []
+    for s in chunk:
+        try:
+            mangled.append(mangle(s))
+        except Exception:
+            mangled.append(None)
+    # the escaped-but-not-yet-normalised name, from the model (content of the tagged region)
+    pres = []
+    praw = subprocess.run([binary], input="".join(
+        "mangle\t%s\t%s\n" % (mc.cps(s), mc.table_for(s)) for s in chunk), capture_output=True, text=True).stdout.splitlines()
+    for l in praw:
+        nums = [int(x) for x in l[3:].split(",")] if len(l) > 3 else []
+        pres.append("".join(chr(n) for n in nums if n < mc.T0) if nums.count(mc.T0) == 1 else None)
+    todo = [(j, m) for j, m in enumerate(mangled) if m is not None]
+    lines = "".join("unmangle\t%s\t%s\n" % (mc.cps(m), mc.table_for(m + lookup_chars(m))) for _, m in todo)
+    out = subprocess.run([binary], input=lines, capture_output=True, text=True).stdout.splitlines()
+    for (j, m), l in zip(todo, out):
+        kind, _, rest = l.partition(" ")
+        mo = ("OK", "".join(chr(int(x)) for x in rest.split(",")) if rest else "") if kind == "OK" else ("ERR", rest)
+        io = impl_unmangle(unmangle, m)
+        if mo != io and len(dis) < 50:
+            dis.append(("Mangle.Model.unmangle vs hy.reader.mangling.unmangle", m, mo, io))
+    for j, s in enumerate(chunk):
+        m = mangled[j]
+        in_scope = not s.lstrip(cls).startswith("hyx_")
+        count("kind:" + kinds[j])
+        count("in-scope" if in_scope else "out-of-scope(hyx_ prefix)")
+        if m is None or not in_scope:
+            cases.append((s, False, None))
+            continue
+        cases.append((s, "hyx_" in m, {"name": s, "mangled": m} if (base + j) % 7919 == 11 else None))
+        inp = {"name": s, "codepoints": [hex(ord(c)) for c in s], "pre": pres[j]}
+        how = "PYTHONPATH=%s python -c 'import hy; m=hy.mangle(%r); u=hy.unmangle(m); print(ascii(m),ascii(u),ascii(hy.mangle(u)))'" % (vlib.REPO, s)
+        io = impl_unmangle(unmangle, m)
+        if io[0] != "OK":
+            fails.append(("unmangle-raises", inp, "unmangle(%r) raises %s" % (m, io[1]), "no exception", how))
+            continue
+        try:
+            again = mangle(io[1]) if io[1] else None
+        except Exception as e:
+            again = "raises " + type(e).__name__
+        if again != m:
+            fails.append(("remangle-differs", inp, {"mangled": m, "unmangled": io[1], "remangled": again}, m, how))
+    return dis, fails, counts, cases
+
+
 def run(chk):
     chk.trusted = TRUSTED
     chk.assumptions = ["names whose part after the leading underscore-class characters starts with hyx_ are out of "
@@ -82,70 +138,35 @@ def run(chk):
         rec["input"].get("pre") is not None and mc.nfkc(rec["input"]["pre"]) != rec["input"]["pre"]
 
     names, kinds = [], []
-    for kind, s in mc.gen_names(chk, chk.rng, 5000, 20000 if not thorough else 300000, exhaustive=thorough):
+    for kind, s in mc.gen_names(chk, chk.rng, 5000, 20000 if not thorough else 100000, exhaustive=thorough):
         names.append(s)
         kinds.append(kind)
     chk.rule = ("names as in C32 (code points in 7 positional contexts + seeded random mixes incl. hyx_/hyx-/X..X/U/H "
                 "fragments and dots); in scope = part after leading underscore-class chars does not start with hyx_; "
                 "non-trivial = in-scope name whose mangling contains an escape; plus unmangle-only correspondence on "
                 "random strings over the escape alphabet")
-    B = 100000
-    for i in range(0, len(names), B):
-        chunk = names[i:i + B]
-        mangled = []
-        for s in chunk:
-            try:
-                mangled.append(mangle(s))
-            except Exception as e:
-                mangled.append(None)
-        # the escaped-but-not-yet-normalised name, from the model (content of the tagged region)
-        mres = mc.run_model(binary, "mangle", chunk)
-        pres = []
-        praw = __import__("subprocess").run([binary], input="".join(
-            "mangle\t%s\t%s\n" % (mc.cps(s), mc.table_for(s)) for s in chunk), capture_output=True, text=True).stdout.splitlines()
-        for l in praw:
-            nums = [int(x) for x in l[3:].split(",")] if len(l) > 3 else []
-            if nums.count(mc.T0) == 1:
-                pres.append("".join(chr(n) for n in nums if n < mc.T0))
-            else:
-                pres.append(None)
-        # unmangle correspondence on the real mangle outputs
-        todo = [(j, m) for j, m in enumerate(mangled) if m is not None]
-        ures = []
-        lines = "".join("unmangle\t%s\t%s\n" % (mc.cps(m), mc.table_for(m + lookup_chars(m))) for _, m in todo)
-        out = __import__("subprocess").run([binary], input=lines, capture_output=True, text=True).stdout.splitlines()
-        for (j, m), l in zip(todo, out):
-            kind, _, rest = l.partition(" ")
-            mo = ("OK", "".join(chr(int(x)) for x in rest.split(",")) if rest else "") if kind == "OK" else ("ERR", rest)
-            io = impl_unmangle(unmangle, m)
-            if mo != io:
-                chk.disagree("Mangle.Model.unmangle vs hy.reader.mangling.unmangle", m, mo, io)
-        for j, s in enumerate(chunk):
-            m = mangled[j]
-            in_scope = not s.lstrip(cls).startswith("hyx_")
-            chk.count("kind:" + kinds[i + j])
-            chk.count("in-scope" if in_scope else "out-of-scope(hyx_ prefix)")
-            if m is None or not in_scope:
-                chk.case(s, nontrivial=False)
-                continue
-            chk.case(s, nontrivial="hyx_" in m, sample={"name": s, "mangled": m} if (i + j) % 7919 == 11 else None)
-            inp = {"name": s, "codepoints": [hex(ord(c)) for c in s], "pre": pres[j]}
-            how = "PYTHONPATH=%s python -c 'import hy; m=hy.mangle(%r); u=hy.unmangle(m); print(ascii(m),ascii(u),ascii(hy.mangle(u)))'" % (vlib.REPO, s)
-            io = impl_unmangle(unmangle, m)
-            if io[0] != "OK":
-                chk.fail("unmangle-raises", inp, "unmangle(%r) raises %s" % (m, io[1]), "no exception", how)
-                continue
-            try:
-                again = mangle(io[1]) if io[1] else None
-            except Exception as e:
-                again = "raises " + type(e).__name__
-            if again != m:
-                chk.fail("remangle-differs", inp, {"mangled": m, "unmangled": io[1], "remangled": again}, m, how)
+    B = 50000
+    jobs = [(binary, cls, names[i:i + B], kinds[i:i + B], i) for i in range(0, len(names), B)]
+    if len(jobs) > 2:
+        import multiprocessing
+        with multiprocessing.Pool(min(vlib.NPROC, len(jobs))) as pool:
+            results = pool.map(_chunk, jobs)
+    else:
+        results = [_chunk(j) for j in jobs]
+    for dis, fails, counts, cases in results:
+        for d in dis:
+            chk.disagree(*d)
+        for k, n in counts.items():
+            chk.count(k, n)
+        for key, nontriv, sample in cases:
+            chk.case(key, nontrivial=nontriv, sample=sample)
+        for f in fails:
+            chk.fail(*f)
     # ---- unmangle-only correspondence on arbitrary escape-shaped strings
     alpha = ["X", "U", "H", "_", "a", "f", "0", "9", "x", "hyx_", "__", "squid", "Xexclamation_markX", "XU21X", "XU110000X",
              "XU0x1fX", "XU_1X", "XU1_fX", "XhyphenHminusX", ".", "-", "z", "Xlatin_small_letter_aX", "XUX", "XX"]
     strs = []
-    for _ in range(20000 if not thorough else 200000):
+    for _ in range(20000 if not thorough else 60000):
         strs.append("".join(chk.rng.choice(alpha) for _ in range(chk.rng.randrange(1, 7))))
     lines = "".join("unmangle\t%s\t%s\n" % (mc.cps(m), mc.table_for(m + lookup_chars(m))) for m in strs)
     out = __import__("subprocess").run([binary], input=lines, capture_output=True, text=True).stdout.splitlines()
